@@ -49,8 +49,9 @@ THEOREMS = [
     'C13.callSizes_eq_sizes', 'C13.call_refuses_bad_multipliers', 'C13.checkMultsRaw_some_iff', 'C13.callHead_ok_spec',
     'C13.callHead_refused_shift_keeps_state', 'C13.callHead_bad_shape_after_shift', 'C13.callSizes_covers_minimum',
     'C13.monopoleCall_spec', 'C13.arrayCall_spec', 'C13.ceilOfFloor_spec', 'C13.minMult_least',
+    'C13.callHead_accepts_iff', 'C13.monopole_refuses_iff',
     # optimality of the two searches of __set_cells
-    'C13.cosLt_iff', 'C13.bestOf_optimal', 'C13.searchM_optimal', 'C13.searchN_optimal',
+    'C13.cosLt_iff', 'C13.bestOf_optimal', 'C13.bestOf_first', 'C13.searchM_optimal', 'C13.searchN_optimal',
 ]
 PARTIAL = {
     'array deletion count': 'array_deletion_count_partial proves that an accepted array has removed exactly `expected` atoms '
@@ -73,12 +74,13 @@ PARTIAL = {
     'width, which is only bounded numerically here: |error| <= 6 |b| (h/(pi X_left) + h/(pi X_right)) + 0.02 |b| '
     '(+ 0.1 |b| for arrays), h the half spacing of the planes adjoining the slip plane, X the distance of the outermost '
     'atomic columns from the core',
-    'uvws search: ties': 'searchM_optimal / searchN_optimal prove that the selected in-plane vector has the largest cosine '
-    'with m among ALL in-plane lattice vectors within the index bound and the out-of-plane one the largest cosine with n '
-    '(comparison of signed squared cosines, cosLt_iff: equivalent to the comparison of the angles); uvws_zone_law / '
-    'uvws_right_handed the zone law and the handedness.  Not a theorem: WHICH of several equally close vectors is taken '
-    '(the first in the enumeration order of itertools.product, then divided by its gcd) and the isclose() tolerance of the '
-    'two selections (exact in the model): correspondence (`cells`, `cellsvalid`) and the oracle clause cells:n-closest',
+    'uvws search: tolerance of the ties': 'searchM_optimal / searchN_optimal prove that the selected in-plane vector has the '
+    'largest cosine with m among ALL in-plane lattice vectors within the index bound and the out-of-plane one the largest '
+    'cosine with n (comparison of signed squared cosines, cosLt_iff: equivalent to the comparison of the angles), bestOf_first '
+    'that of several equally close candidates the first in the enumeration order is taken; uvws_zone_law / uvws_right_handed '
+    'the zone law and the handedness.  Not a theorem: the isclose() tolerances of the two selections and of the in-plane test '
+    '(exact in the model; cases the model flags as near ties are decided by the relational op `cellsvalid`) and the oracle '
+    'clause cells:n-closest',
     'rotation of the cell': 'System.rotate / normalize (C04, C05) and conventional_to_primitive are not re-modelled here: the '
     'rotated cell enters the monopole / array model as data; the oracle checks on the real results that rcell is ucell\'s '
     'crystal (every atom on a lattice site of its type, det(uvws) natoms atoms) and that rcell.box.vects = uvws . '
@@ -3944,11 +3946,20 @@ MANIFEST = {
             'implied by the volume change (partial). Tied to the code by a differential run on fcc/bcc/hcp/bct/orthorhombic/'
             'monoclinic/triclinic cells and slip systems (whole configurations, the region at probe widths beside every face, '
             'disregistry for arbitrary planepos); the clauses (also overlap-freeness and disregistry) are evaluated on the real results by an '
-            'independent oracle.',
+            'independent oracle. SOURCE TIE: translate() regenerates lean/Atomman/Generated/DislocationSource.lean from the '
+            'current source with ast (set_shift decision tree, multiplier checks and arithmetic, (lo, hi) pairs, shift / centre / '
+            'width / shape handling, boundary guard, plane selection and shift of the regions, Plane.below / PlaneSet.inside / '
+            'Shape.outside / Cylinder.inside, cylinder rows / radius / line / intersection helpers, tilt, strip, duplicate test, '
+            'expected count, surface layers, linear field; normalised statement pins for the rest) and Proofs/C13_Source.lean '
+            'proves each generated definition equal to the model (30 gen_ obligations). API LEVEL: callHead / monopoleCall / '
+            'arrayCall model the whole argument handling and the calls end to end (refusals exactly, refusal order, state of '
+            'the object after refused calls, monopoleCall_spec / arrayCall_spec); the two searches are proved optimal '
+            '(largest cosine, first of equals).',
     'note': 'Trusted: Lean kernel + propext/Classical.choice/Quot.sound; the correspondence harness; the elastic solver as '
             'the supplier of u; the C04/C05 models of supersize/wrap. Partial: deletion count (guard of the code, edge '
             'formula for orthogonal boxes), overlap-freeness and the elastic disregistry (oracle only, stated tail bound). '
             'Four genuine defects were found and fixed in /repo (orientation sign for negative xi axes, missing alignment '
             'refusal, face atoms scattered by rounding in periodic arrays, tuple sizemults / mutated caller list).',
-    'technique': 'Lean 4 theorems over a hand-written model + differential correspondence + clause oracle on the real code',
+    'technique': 'Lean 4 theorems over a hand-written model + ast translator with gen_..._eq_model obligations and statement '
+                 'pins + differential correspondence + clause oracle on the real code',
 }
